@@ -3,7 +3,31 @@
 //! surface under another VERIF_SEED; the reproducers in /verif/findings are the only members run.
 use crate::ast::*;
 
-/// Known-finding class of a CLP(FD) program, if any.
+/// Known-finding class of a CLP(FD) program for the soundness/completeness checks, if any.
 pub fn fd_known_class(_p: &Program) -> Option<String> {
     None
+}
+
+pub fn count_fd_constraints(p: &Program) -> usize {
+    fn visit(g: &G) -> usize {
+        let own = match g {
+            G::Ltefd(..) | G::Plusfd(..) | G::Minusfd(..) | G::Timesfd(..) | G::Diseqfd(..) | G::Distinctfd(..) => 1,
+            G::Ltfd(..) => 2,
+            _ => 0,
+        };
+        own + g.children().iter().map(|c| visit(c)).sum::<usize>()
+    }
+    p.body.iter().map(visit).sum()
+}
+
+/// C09: the *order* in which a CLP(FD) program's answers come out depends on the order in which
+/// pending constraints are re-run (one pass per binding, no fixpoint), because differently
+/// pruned domains change the shape of the interleaved labeling search. Class: two or more
+/// finite-domain constraints in the program.
+pub fn fd_order_class(p: &Program) -> Option<String> {
+    if count_fd_constraints(p) >= 2 {
+        Some("fd-answer-order-depends-on-propagation-order".into())
+    } else {
+        None
+    }
 }
